@@ -2,6 +2,7 @@ package main
 
 import (
 	"fmt"
+	"strings"
 
 	"verif/harness/hx"
 )
@@ -49,6 +50,54 @@ func gen(r *hx.Rand, n int, tier string, prop string, out *hx.Out) {
 }
 
 func fixed(out *hx.Out) {
+	// a bulk delete larger than the round size while the reconciler is idle and nothing touches the table afterwards
+	// (successful deletions write nothing back): every removed object must still be deleted from the target
+	for _, mode := range []string{"s", "b"} {
+		for _, rs := range []int{1, 2} {
+			out.P("#case fix-bulk-delete-larger-than-round-%s%d", mode, rs)
+			out.P("cfg %s %d 10 40 0 0", mode, rs)
+			out.P("wmany put:1 put:2 put:3 put:4 put:5")
+			out.P("sleep 10")
+			out.P("wmany del:1 del:2 del:3 del:4 del:5")
+			out.P("sleep 100")
+			out.P("dump")
+			out.P("final")
+		}
+	}
+	// a round holding a deletion that fails together with updates (batch: DeleteBatch before UpdateBatch)
+	for _, mode := range []string{"s", "b"} {
+		out.P("#case fix-failed-delete-with-updates-%s", mode)
+		out.P("cfg %s 5 10 40 0 0", mode)
+		out.P("fail 1 1")
+		out.P("fail 1 2")
+		out.P("wmany put:1 put:2 put:3")
+		out.P("sleep 10")
+		out.P("wmany del:1 put:2 put:3 put:4")
+		out.P("sleep 10")
+		out.P("dump")
+		out.P("sleep 100")
+		out.P("dump")
+		out.P("final")
+	}
+	// an object deleted (by a hook inside another object's Update) while the round that holds both is in flight
+	for _, mode := range []string{"s", "b"} {
+		for _, victim := range []int{1, 2, 3, 4, 5, 6} {
+			out.P("#case fix-deleted-during-round-%s%d", mode, victim)
+			out.P("cfg %s 10 10 40 0 0", mode)
+			for k := 1; k <= 6; k++ {
+				if k != victim {
+					out.P("hookf %d 0 del %d", k, victim)
+					break
+				}
+			}
+			out.P("wmany put:1 put:2 put:3 put:4 put:5 put:6")
+			out.P("sleep 10")
+			out.P("dump")
+			out.P("sleep 100")
+			out.P("dump")
+			out.P("final")
+		}
+	}
 	// D7 shape: an object that fails repeatedly; the low watermark must stay at the user's change
 	out.P("#case fix-lwm-stays")
 	out.P("cfg s 2 10 80 0 0")
@@ -343,6 +392,21 @@ func genCase(r *hx.Rand, prop string, out *hx.Out) {
 		}
 		x := r.Intn(100)
 		switch {
+		case x < 12 && classS:
+			// several writes in one transaction: the reconciler sees them in one round (round size permitting):
+			// bulk deletes larger than the round, deletions and updates in one batch, objects deleted by a hook
+			// while their round is in flight (S4-C14-1..3). Only with at most one failing key (no retry ties).
+			n := 2 + r.Intn(nk+1)
+			var ws []string
+			kind := hx.Pick(r, []string{"put", "put", "del", "mixed", "mixed"})
+			for _, k := range r.Perm(nk + 1)[:min(n, nk+1)] {
+				wk := kind
+				if kind == "mixed" {
+					wk = hx.Pick(r, []string{"put", "put", "del", "reins", "pend"})
+				}
+				ws = append(ws, fmt.Sprintf("%s:%d", wk, 1+k))
+			}
+			out.P("wmany %s", strings.Join(ws, " "))
 		case x < 40:
 			out.P("w %s %d", hx.Pick(r, wkinds), 1+r.Intn(nk))
 		case x < 62:
